@@ -682,7 +682,9 @@ func suiteTtml(R0 *runner, r *rng) {
 				o.Impl, o.Oracle, o.Sig = "0", "the output is not well-formed XML: "+perr.Error(), "ttml-write-xml"
 				break
 			}
-			o.Impl = (&enc{}).n(0).xnode(dropIndent(root)).String()
+			o.Impl = (&enc{}).n(0).bytes(buf.Bytes()).String()
+			// the XML-layer contract on this output: parsing the bytes gives the model's tree with the encoder's indentation
+			R.add(&obs{Suite: "ttmlwritetree", Group: "ttml.write.tree", Input: o.Input, Impl: (&enc{}).n(0).xnode(root).String(), NT: o.NT})
 			dec, derr := denoteTTML(root)
 			if derr != nil {
 				o.Oracle, o.Sig = "independent decoder rejects the writer's output: "+derr.Error(), "ttml-write-decoder"
